@@ -336,6 +336,24 @@ def plan(ctx):
     groups.append(Group(name='strip_multiline_comments', harness='harness/C08/comments.c', entry='h_strip_multiline_comments',
                         function='strip_multiline_comments<std::string>', enforce='strip_multiline_comments', replace=['vstr_resize'], loops=True,
                         kind='loop-contract', replay=RP('strip_multiline_comments'), timeout=300, stage1=90, fallback_unwind=8, min_post=7))
+    # string_vprintf: exactly the formatted text (abstract text model of vsnprintf/vasprintf, stubs/C08_printf.h)
+    uv = Unit(ctx, 'vprintf')
+    uv.raw('#include "contracts/C08_printf.h"\n')
+    uv.function(src, CC, r'string string_vprintf\(const char\* fmt, va_list va\)', new_header='void string_vprintf(vstr* ret, const char* fmt, verif_va_list va)',
+                ret_zero='', rules=[Rule(r'\bvasprintf\(', 'verif_vasprintf(', count=None, regex=True),
+                                    Rule(r'\bvsnprintf\(', 'verif_vsnprintf(', count=None, regex=True),
+                                    Rule(r'\bfree\(', 'verif_free(', count=None, regex=True),
+                                    Rule(r'\bstring ret\(([^;]*)\);', r'vstr_assign(ret, \1);', count=None, regex=True),
+                                    Rule(r'return string\(([^;]*)\);', r'{ vstr_assign(ret, \1); return; }', count=None, regex=True),
+                                    Rule(r'ret\.data\(\)', 'ret->data', count=None, regex=True), Rule(r'ret\.size\(\)', 'ret->size', count=None, regex=True),
+                                    Rule(r'ret\.resize\(([^;]*)\);', r'vstr_resize(ret, \1, 0);', count=None, regex=True),
+                                    Rule('return ret;', 'return;', count='+')])
+    uv.write()
+    ctx.functions_under_contract += uv.functions
+    groups.append(Group(name='string_vprintf', harness='harness/C08/printf.c', entry='h_string_vprintf', function='string_vprintf',
+                        enforce='string_vprintf', replace=['verif_vasprintf', 'verif_vsnprintf', 'verif_free', 'vstr_assign'],
+                        clause_note='contracts/C08_printf.h: the result is exactly the formatted text (abstract: ghost length, ghost character at a ghost index) or bad_alloc',
+                        replay=RP('string_printf')))
     return groups
 
 
@@ -372,8 +390,8 @@ ASSUMPTIONS = ['string sizes below 2^47 bytes (cbmc object size limit); vectors 
 DROPS = ('returned std::string / vector<string> -> out-parameters (vout: size + one ghost byte; vvec: count + one ghost slice; vargs: operation log); '
          'const std::string& -> const vstr*; range-for -> index loop; std::string::npos -> C8_NPOS; vector<char> paren_stack -> (depth, innermost closer) with '
          'an unconstrained closer after pop; s = s.substr(..) -> pointer shift of the view; exceptions -> verif_exc flag; ghost statements assign only g_* variables')
-NOT_DECIDED = ['string_vprintf / string_printf (libc vasprintf; "results far longer than any internal buffer": there is no internal buffer on the POSIX path) -- not '
-               'expressible as a contract over this code without a model of printf',
+NOT_DECIDED = ['string_vprintf: what text printf produces for a format (libc) -- the contract only says the result is *the* text vsnprintf/vasprintf produce, of any length (abstract text model); '
+               'string_printf / wstring_printf / wstring_vprintf (variadic wrappers, wide characters) are not under contract',
                'split(const wstring&, wchar_t, size_t): same text as the string overload, not instantiated',
                'the numeric equation count == min(#delimiters, max_splits) + 1 is decided through the tiling facts (every separator is a delimiter, no '
                'delimiter inside an uncapped piece, count - 1 <= max_splits); the final counting induction over pieces is a meta-argument, as is the '
